@@ -12,7 +12,7 @@
 (*   new -auth ok-> up -(client close | refused report)-> closing -handler      *)
 (*   returns-> gone.                                                            *)
 (* Mutant switches (non-vacuity): ClearAtomic, LogAtomic, KickConsume,          *)
-(* OfflineOnVeto, CloseOnLateVeto, OnlineFloor.                                 *)
+(* OfflineOnVeto, CloseOnLateVeto, AuthAtomic, OnlineFloor.                     *)
 EXTENDS Prop_C15, TLC, Json
 
 CONSTANTS NU,            \* users 1..NU
@@ -27,6 +27,8 @@ CONSTANTS NU,            \* users 1..NU
           LogAtomic,     \* FALSE: counter read and written in two critical sections
           KickConsume,   \* FALSE: a kick entry is not deleted when it refuses a report
           OfflineOnVeto, \* FALSE: no offline report when the connection was closed by a refused report
+          AuthAtomic,    \* FALSE: check-then-act on the connection's authenticated flag is not atomic: two auth
+                         \* requests of one connection in flight together both report online
           CloseOnLateVeto, \* FALSE: a report refused after its stream's relay was already torn down (the other
                          \* direction ended first, with an error) does not close the connection
           OnlineFloor    \* FALSE: entry kept (and decremented) at <= 0
@@ -155,15 +157,20 @@ Ev(name, c) == [ev |-> name, scn |-> 0, conn |-> c]
 Auth(c, u, ok) ==
   /\ cst[c] = "new" /\ nops < MaxOps
   /\ cu' = [cu EXCEPT ![c] = u]
-  /\ IF ok THEN /\ OnlineEffect(u, TRUE)
-                /\ cst' = [cst EXCEPT ![c] = "up"]
-                /\ mon' = MonStep(Pair(mon, gid, [NoOp EXCEPT !.op = "online", !.u = u, !.flag = TRUE], NoRes),
-                                  [ev |-> "Connect", scn |-> 0, conn |-> c, u |-> u, ok |-> TRUE], 0)
-           ELSE /\ UNCHANGED online
-                /\ cst' = [cst EXCEPT ![c] = "gone"]
-                /\ mon' = MonStep(mon, [ev |-> "Connect", scn |-> 0, conn |-> c, u |-> u, ok |-> FALSE], 0)
-  /\ hist' = Append(hist, [NoOp EXCEPT !.op = IF ok THEN "connect" ELSE "authfail", !.u = u, !.tx = c])
-  /\ nops' = nops + 1 /\ gid' = gid + 1
+  /\ \E conc \in BOOLEAN :   \* conc: several auth requests of this connection are in flight inside Authenticate together;
+                              \* the handler's auth mutex covers check, Authenticate and flag: only one of them logs online
+     LET n  == IF ok /\ conc /\ ~AuthAtomic THEN 2 ELSE 1
+         on == [NoOp EXCEPT !.op = "online", !.u = u, !.flag = TRUE]
+         m1 == Pair(mon, gid, on, NoRes)
+         m2 == IF n = 2 THEN Pair(m1, gid + 1, on, NoRes) ELSE m1
+     IN /\ IF ok THEN /\ online' = [online EXCEPT ![u] = @ + n]
+                      /\ cst' = [cst EXCEPT ![c] = "up"]
+                      /\ mon' = MonStep(m2, [ev |-> "Connect", scn |-> 0, conn |-> c, u |-> u, ok |-> TRUE], 0)
+                 ELSE /\ UNCHANGED online
+                      /\ cst' = [cst EXCEPT ![c] = "gone"]
+                      /\ mon' = MonStep(mon, [ev |-> "Connect", scn |-> 0, conn |-> c, u |-> u, ok |-> FALSE], 0)
+        /\ hist' = Append(hist, [NoOp EXCEPT !.op = IF ok THEN "connect" ELSE "authfail", !.u = u, !.tx = c, !.flag = conc])
+  /\ nops' = nops + 1 /\ gid' = gid + 2
   /\ UNCHANGED <<stats, kick, pc, cur, res, tmp>>
 
 \* one exchange through the proxy: a traffic report (copy.go / server.go:375-394); refused => connection closed
